@@ -63,10 +63,16 @@ def check_trace2(ctx, tr, w):
         and is not before the commit time of the preceding leg;
       * no leg follows the end-of-run commit (`Reach2.step`'s `hgo`).
     The kind/mode part of the step relation (`Commits2`) is measured by `modecorr`, the yields by `fpcorr2`."""
-    from harness import fpcorr2
+    from harness import fpcorr2, fpcorr3
     meta = tr["meta"]
     job = tr.get("job") or {}
-    if meta.get("levels") != 2 or not fpcorr2.supported2(w) or meta.get("number_cores") or job.get("mp") or job.get("resume"):
+    with_cells = False
+    if meta.get("levels") == 2 and not fpcorr2.supported2(w):
+        try:
+            with_cells = bool(fpcorr3.supported3(w))       # composite objects WITH cell systems: JF.Props.SystemInv3Loop (CandsOK3, TieFree3)
+        except Exception:
+            with_cells = False
+    if meta.get("levels") != 2 or not (fpcorr2.supported2(w) or with_cells) or meta.get("number_cores") or job.get("mp") or job.get("resume"):
         return 0
     last_commit, pending, n, ended = None, {}, 0, False
     for i, leg in enumerate(tr["legs"][:4000]):
@@ -87,10 +93,16 @@ def check_trace2(ctx, tr, w):
         ch = leg["chosen"]
         if ch in pending:
             last_commit = pending[ch]
+            if with_cells:
+                # `TieFree3`: a commit at exactly the time of a pending cell-boundary candidate of a cell system the committing tagger
+                # does not touch - COUNTED (the theorem does not speak about such a run), never a defect of the code
+                for h2, t2 in pending.items():
+                    if h2 != ch and t2 == last_commit and "CellBoundary" in meta["handlers"][h2][1]:
+                        ctx.count("sysinv3:tie-with-pending-cell-boundary-candidate")
         if "EndOfRun" in meta["handlers"][ch][0]:
             ended = True
         for h in leg["trashed"]:
             pending.pop(h, None)
         n += 1
-    ctx.count("sysinv2:legs-judged", n)
+    ctx.count("sysinv3:legs-judged" if with_cells else "sysinv2:legs-judged", n)
     return n
